@@ -252,9 +252,13 @@ fn built_in_messages() -> Vec<String> {
     };
     // (1) candidate table full (and nearly full) before the cut; the dropped record introduces a new
     //     name; smaller records in later sections use that name again
-    for distinct in [70usize, 40, 31] {
+    for (distinct, solo) in [(70usize, false), (40, false), (32, false), (31, true), (31, false), (30, true), (30, false), (29, true), (29, false), (28, false)] {
         for with_edns in [false, true] {
             let mut m = base(1);
+            if solo {
+                // one more candidate: the table holds an odd number before the cut
+                m.add_answer(Record::from_rdata(nm(&["solo"]), 60, a(0)));
+            }
             for i in 0..distinct {
                 let (h, z) = (format!("h{i}"), format!("z{i}"));
                 m.add_answer(Record::from_rdata(nm(&[h.as_str(), z.as_str()]), 60, a(i as u8)));
